@@ -909,10 +909,24 @@ def run(chk):
     if not loops:
         raise AnchorMissing("retry loop in download_http")
     L = loops[0]
-    ok = isinstance(L.iter, ast.Call) and dotted(L.iter.func) == "range" and len(L.iter.args) == 1 and u(L.iter.args[0]) in ("HTTP_DOWNLOAD_RETRIES + 1", "1 + HTTP_DOWNLOAD_RETRIES")
-    chk.ob("O14.2", "range(HTTP_DOWNLOAD_RETRIES + 1)", ok, L, u(L.iter))
-    const = net.module_constant("HTTP_DOWNLOAD_RETRIES")
-    chk.ob("O14.2", "retry constant is a positive integer", isinstance(const, ast.Constant) and isinstance(const.value, int) and const.value > 0, const if const is not None else net.tree, "")
+    # the number of attempts, decided on its value: module-level literal constants are bound (whether the loop names one or, after constant propagation N9, holds the literal)
+    menv = {}
+    for st_ in net.tree.body:
+        if isinstance(st_, ast.Assign) and len(st_.targets) == 1 and isinstance(st_.targets[0], ast.Name):
+            try:
+                menv[st_.targets[0].id] = ast.literal_eval(st_.value)
+            except (ValueError, SyntaxError):
+                pass
+    attempts = None
+    if isinstance(L.iter, ast.Call) and dotted(L.iter.func) == "range" and len(L.iter.args) == 1:
+        try:
+            attempts = eval_with(L.iter.args[0], dict(menv))
+        except CannotEval:
+            attempts = None
+    ok = isinstance(attempts, int) and not isinstance(attempts, bool) and 2 <= attempts < 1000
+    chk.ob("O14.2", "range(HTTP_DOWNLOAD_RETRIES + 1)", ok, L, f"{u(L.iter)} = {attempts} attempt(s)" + ("" if ok else " — the transfer is not retried at all (or the count cannot be evaluated)"))
+    const = ast.Constant(value=attempts - 1) if ok else None
+    chk.ob("O14.2", "retry constant is a positive integer", ok and attempts - 1 > 0, L, "")
     T = [n for n in L.body if isinstance(n, ast.Try)]
     ok = False
     if T and not T[0].handlers:
@@ -937,7 +951,7 @@ def run(chk):
         if hb and isinstance(hb[0], ast.If) and isinstance(const, ast.Constant) and isinstance(const.value, int) and not isinstance(const.value, bool) and 0 < const.value < 1000:
             N = const.value
             try:
-                tv = [bool(eval_with(hb[0].test, {iv: k, "HTTP_DOWNLOAD_RETRIES": N})) for k in range(N + 1)]
+                tv = [bool(eval_with(hb[0].test, dict(menv, **{iv: k}))) for k in range(N + 1)]
                 # whichever arm starts (logging aside) with the bare re-raise must be the one taken exactly at the last index
                 arm_t = [x for x in hb[0].body if not is_logging_stmt(x)]
                 arm_f = [x for x in hb[0].orelse if not is_logging_stmt(x)]
